@@ -247,7 +247,7 @@ validations:
 
 func C06(e *core.Env) {
 	res := e.Res
-	res.Rule = "cases = (profile, data): generated Rego and report (fixed clock) computed by N fresh processes (quick 10, thorough 40), by repeated calls in one process, and by 8 goroutines at once; all bytes must be identical; profiles: several quantified constraints and properties per propertyConstraints map, several prefixes incl. a redeclared built-in one, deep nesting, alternations nested in alternations followed by further steps, 48 validations, repository fixtures; a profile relying on a built-in prefix before / after a profile that rebinds it, against the fresh-process report; a history of 13 validations cycling through 5 report configurations (sharing / differing in each field) against the fresh-process report of each configuration; data: failing documents with lexical source maps, with TWO source-information nodes, with several results per level; " +
+	res.Rule = "cases = (profile, data): generated Rego and report (fixed clock) computed by N fresh processes (quick 10, thorough 40), by repeated calls in one process, and by 8 goroutines at once; all bytes must be identical; profiles: several quantified constraints and properties per propertyConstraints map, several prefixes incl. a redeclared built-in one, deep nesting, alternations nested in alternations followed by further steps, 48 validations, repository fixtures; a profile relying on a built-in prefix before / after a profile that rebinds it, against the fresh-process report; a history of 13 validations cycling through 5 report configurations (sharing / differing in each field) against the fresh-process report of each configuration; four constant clocks (incl. the zero time.Time and a zoned instant), each used twice 1.1 s apart; data: failing documents with lexical source maps, with TWO source-information nodes, with several results per level; " +
 		"non-trivial = the report has results; distinct by (profile, data, mode)"
 	self, _ := os.Executable()
 	g := RandomEdgeGraph(e.Rand, 5, []string{"a", "b", "c"}, 0.4)
@@ -440,6 +440,35 @@ func C06(e *core.Env) {
 			}
 			res.Case(fmt.Sprintf("config-history|%d|%d", step, k), strings.Contains(o, "\"result\""))
 			res.Count("stream=configuration-history")
+		}
+	}
+	// clocks: the same inputs with the same constant clock, a second apart on the wall clock, give the same bytes - for ordinary
+	// instants, for the zero instant (the zero value of time.Time, what an unset field holds) and for a zoned one
+	{
+		p, d := PoolProfileLevels, thingData
+		clocks := []struct {
+			name string
+			c    fixedClock
+		}{{"2031-03-04T05:06:07Z", clockA}, {"the zero time.Time", fixedClock{time.Time{}}}, {"1999-01-01T00:00:01-03:00", clockC}, {"the Unix epoch", fixedClock{time.Unix(0, 0).UTC()}}}
+		firsts := make([]string, len(clocks))
+		run := func(k int) string {
+			o, err := pkg.ValidateWithConfiguration(p, d, false, nil, clocks[k].c, c06Configs[0])
+			if err != nil {
+				return "error: " + err.Error()
+			}
+			return o
+		}
+		for k := range clocks {
+			firsts[k] = run(k)
+		}
+		time.Sleep(1100 * time.Millisecond)
+		for k := range clocks {
+			if o := run(k); o != firsts[k] {
+				res.Violate("impl-violates-property", "the same profile, data, configuration and constant clock ("+clocks[k].name+") give two different reports 1.1 s apart",
+					map[string]any{"profile": p, "data": d, "clock": clocks[k].name, "configuration": fmt.Sprintf("%+v", c06Configs[0]), "first_diff_line": firstDiff(firsts[k], o), "mode": "constant clock, two calls 1.1 s apart"})
+			}
+			res.Case("clock|"+clocks[k].name, true)
+			res.Count("stream=constant-clock")
 		}
 	}
 	res.Unmodelled = []string{"determinism of yaml.v3, json-gold (blank-node naming, sorted keys), OPA (set ordering) and encoding/json (sorted keys) is measured across processes, not proved",
